@@ -49,10 +49,15 @@ Ops(s) ==
   \cup {[op |-> "select", dim |-> d, index |-> s[d] - 1] : d \in {d \in 1..Rank(s) : s[d] >= 1}}
   \cup {[op |-> "slice", dim |-> d, start |-> 1, stop |-> s[d]] : d \in {d \in 1..Rank(s) : s[d] >= 2}}
   \cup {[op |-> "unsqueeze", dim |-> d] : d \in {1, Rank(s) + 1}}
+  \cup {[op |-> "slice_step", dim |-> d] : d \in {d \in 1..Rank(s) : s[d] >= 3}}          \* x[..., ::2, ...]
+  \cup {[op |-> "select_neg", dim |-> d] : d \in {d \in 1..Rank(s) : s[d] >= 2}}          \* negative dim and index
+  \cup (IF \E d \in 1..Rank(s) : s[d] = 1 THEN {[op |-> "squeeze"]} ELSE {})
+  \cup (IF Rank(s) >= 2 THEN {[op |-> "flatten"]} ELSE {})
   \cup {[op |-> "expand"]}
   \cup {[op |-> o, dim |-> d, aux |-> a] : o \in {"cat", "stack"}, d \in {1, Rank(s)}, a \in {"same", "scale2", "otherq", "plain", "three"}}
   \cup {[op |-> "split", dim |-> d, size |-> 1, take |-> 1] : d \in {d \in 1..Rank(s) : s[d] >= 2}}
   \cup {[op |-> o, k |-> k] : o \in {"mul", "div"}, k \in {2, 3, -1}}
+  \cup {[op |-> o, k |-> 2] : o \in {"mul_t", "div_t", "rmul"}}                            \* 0-dim tensor scalar; scalar on the left
   \cup {[op |-> "div_tensor", aux |-> a] : a \in {"same", "plain"}}
   \cup {[op |-> o] : o \in {"neg", "relu", "clone", "detach", "abs", "add1", "sum", "gelu", "contiguous"}}
   \cup {[op |-> "softmax", dim |-> Rank(s)]}
@@ -69,6 +74,10 @@ FloatShape(s, o) ==
     [] o.op = "select" -> RemoveAt(s, o.dim)
     [] o.op = "slice" -> [s EXCEPT ![o.dim] = o.stop - o.start]
     [] o.op = "unsqueeze" -> InsertAt(s, o.dim, 1)
+    [] o.op = "slice_step" -> [s EXCEPT ![o.dim] = (s[o.dim] + 1) \div 2]
+    [] o.op = "select_neg" -> RemoveAt(s, o.dim)
+    [] o.op = "squeeze" -> SelectSeq(s, LAMBDA x : x # 1)
+    [] o.op = "flatten" -> <<Prod(s)>>
     [] o.op = "expand" -> <<2>> \o s
     [] o.op = "cat" -> [s EXCEPT ![o.dim] = (IF o.aux = "three" THEN 3 ELSE 2) * s[o.dim]]
     [] o.op = "stack" -> InsertAt(s, o.dim, IF o.aux = "three" THEN 3 ELSE 2)
@@ -103,7 +112,7 @@ QSem(c, o) ==
       ELSE IF o.op = "stack" /\ Dev_C05_StackFallback THEN Plain(c, fs)
       ELSE Plain(c, fs))
   ELSE \* QBytes
-  CASE o.op \in {"view", "permute", "select", "slice", "unsqueeze", "expand", "transpose"} ->
+  CASE o.op \in {"view", "permute", "select", "slice", "unsqueeze", "expand", "transpose", "slice_step", "select_neg", "flatten"} ->
          IF PerTensor(c) THEN QB(c, "none", fs, fs) ELSE Plain(c, fs)
     [] o.op = "contiguous" -> QB(c, c.axis, fs, fs)
     [] o.op = "t" ->
@@ -117,7 +126,7 @@ QSem(c, o) ==
     [] o.op = "split" ->
          IF PerTensor(c) THEN (IF Dev_C06_SplitStaleSize THEN QB(c, "none", c.shape, fs) ELSE QB(c, "none", fs, fs))
          ELSE Plain(c, fs)
-    [] o.op \in {"mul", "div"} -> IF o.k > 0 THEN QB(c, c.axis, fs, c.pshape) ELSE Plain(c, fs)    \* only positive scalars are folded into the scale
+    [] o.op \in {"mul", "div", "mul_t", "div_t", "rmul"} -> IF o.k > 0 THEN QB(c, c.axis, fs, c.pshape) ELSE Plain(c, fs)    \* only positive scalars are folded into the scale
     [] o.op = "div_tensor" -> Plain(c, fs)
     [] o.op \in {"neg", "relu"} -> IF IntQ(c) THEN QB(c, c.axis, fs, c.pshape) ELSE Plain(c, fs)
     [] o.op \in {"clone", "detach"} -> c
